@@ -617,9 +617,13 @@ class TaskHandler(PoolThread):
                     continue
                 break
             except Exception:
-                job, ind = task[1][:2] if task else (0, 0)
-                if job in cache:
-                    cache[job]._set(ind + 1, (False, ExceptionInfo()))
+                # The input iterable failed.  Blame the job the last task
+                # belonged to; before the first task there is none to read
+                # the job from (and job 0 is somebody else's).
+                if task:
+                    job, ind = task[1][:2]
+                    if job in cache:
+                        cache[job]._set(ind + 1, (False, ExceptionInfo()))
                 if set_length:
                     util.debug('doing set_length()')
                     set_length(i + 1)
